@@ -3,6 +3,10 @@
 package hdf5
 
 import (
+	"fmt"
+	"sync"
+	"time"
+
 	"github.com/scigolib/hdf5/internal/vrt"
 )
 
@@ -81,4 +85,54 @@ func VerifH_C18_pool_independent_handles() {
 	vrt.Covered("handles-compared")
 	_ = fa.Close()
 	_ = fb.Close()
+}
+
+// VerifN_C18_pool_independent_handles is the native concurrent replay driver for a pool-buffer finding of the harness of
+// the same name: independent handles on separate goroutines, run under the race detector by the checker. It returns
+// descriptions of walks that differ from the sequential result.
+func VerifN_C18_pool_independent_handles() []string {
+	var files []string
+	var want [][]float64
+	for i, ver := range []uint8{0, 2, 0, 2} {
+		n := fmt.Sprintf("c18n%d.h5", i)
+		verifBuildPoolFile(n, ver, int32(100+i))
+		d, err := verifDumpFile(n)
+		if err != nil {
+			return []string{"sequential dump failed: " + err.Error()}
+		}
+		files = append(files, n)
+		want = append(want, d.vals)
+	}
+	var mu sync.Mutex
+	var diffs []string
+	var wg sync.WaitGroup
+	deadline := time.Now().Add(3 * time.Second)
+	for w := 0; w < 32; w++ {
+		wg.Add(1)
+		go func(w int) {
+			defer wg.Done()
+			for i := 0; time.Now().Before(deadline); i++ {
+				k := (w + i) % len(files)
+				d, err := verifDumpFile(files[k])
+				bad := err != nil || len(d.vals) != len(want[k])
+				if !bad {
+					for j := range d.vals {
+						if d.vals[j] != want[k][j] {
+							bad = true
+						}
+					}
+				}
+				if bad {
+					mu.Lock()
+					if len(diffs) < 3 {
+						diffs = append(diffs, fmt.Sprintf("concurrent walk of %s differs from the sequential one (err=%v)", files[k], err))
+					}
+					mu.Unlock()
+					return
+				}
+			}
+		}(w)
+	}
+	wg.Wait()
+	return diffs
 }
